@@ -396,26 +396,22 @@ IDENT_RE = __import__("re").compile(r"^[A-Za-z@_](?:[-.]?[A-Za-z0-9@_$])*$")
 # findings
 # ---------------------------------------------------------------------------
 
-def is_extra_ws(c):
-    """Unicode White_Space that is not whitespace of the grammar (mirror of Render.extra_ws on one character; used only
-    to recognise a REPAIRED finding in the whitespace sweep)"""
-    return c in (0x0b, 0x0c, 0x85, 0xa0, 0x1680, 0x2028, 0x2029, 0x202f, 0x205f, 0x3000) or 0x2000 <= c <= 0x200a
-
-
 def finding_for(kind, f):
     """which open finding's class holds on this literal (by the Coq classifier flags of the oracle line)"""
     c = f.get("C", "")
     if kind == K_TEXT and c == "1":
         return "kf-c07-text-escape-dropped"
-    if kind == K_FLOAT and c == "1":
-        return "kf-c07-float-overflow-inf"
     if kind == K_BUTF8 and c == "1":
         return "kf-c07-bytes-escapes-not-processed"
-    if kind in (K_B16, K_B64) and c[:1] == "1":
-        return "kf-c07-bytes-nongrammar-ws"
-    if kind == K_B64 and c == "01":
-        return "kf-c07-b64-inner-padding"
     return None
+
+
+# witnesses of the FIXED findings (findings.d/C07.json "fixed"): they run first, in every position, and a recurrence is
+# an ordinary VIOLATION (the models mirror the repaired code and reject them)
+FIXED_CORPUS = [(K_FLOAT, "1e999", "fixed-corpus"), (K_FLOAT, "-1e999", "fixed-corpus"), (K_FLOAT, "1.7976931348623159e308", "fixed-corpus"),
+                (K_B16, "h'12\u00a034'", "fixed-corpus"), (K_B16, "h'12\u202834'", "fixed-corpus"), (K_B16, "h'12\x0c34'", "fixed-corpus"),
+                (K_B64, "b64'YQ\u00a0=='", "fixed-corpus"), (K_B64, "b64'YQ==YQ=='", "fixed-corpus"), (K_B64, "b64'YWE=YQ=='", "fixed-corpus"),
+                (K_B64, "b64'-_8=-_8='", "fixed-corpus")]
 
 
 UINT_RE = __import__("re").compile(r"^(0[xX][0-9a-fA-F]+|0[bB][01]+|[1-9][0-9]*|0)$")
@@ -445,7 +441,7 @@ def derived_literals(lits, raw, wide):
     return out
 
 
-FULL_POS_CLASSES = ("boundary", "long", "float-named", "hexfloat-named", "esc1", "pair", "pair-reversed", "brace-width", "occ-fixed",
+FULL_POS_CLASSES = ("fixed-corpus", "boundary", "long", "float-named", "hexfloat-named", "esc1", "pair", "pair-reversed", "brace-width", "occ-fixed",
                     "occ-enum", "occ-uint", "tag-uint", "tag-bare", "utf8-1", "b16-pairs", "random")
 
 
@@ -462,7 +458,7 @@ def run(tier, seed):
     # ---- the cases ----
     int_lits, raw = gen_ints(rng, gtier)
     raw = list(dict.fromkeys(raw))
-    lits = int_lits + gen_texts(rng, gtier) + gen_bytes(rng, gtier) + gen_floats(rng, gtier)
+    lits = FIXED_CORPUS + int_lits + gen_texts(rng, gtier) + gen_bytes(rng, gtier) + gen_floats(rng, gtier)
     lits += derived_literals(lits, raw, wide)
     lits = list(dict.fromkeys(lits))
     if wide:
@@ -520,6 +516,8 @@ def run(tier, seed):
             if f["G"] == "1":
                 m, fin = float_expect(t)
                 float_expected[i] = (m, fin)
+                if f["M"] != "FIN":
+                    m = "ERR"       # the model (Coq overflow test) says the bridge rejects it; cross-checked below
             else:
                 m = "ERR"
         elif k == K_HEXF:
@@ -595,10 +593,6 @@ def run(tier, seed):
         split["accepted" if out.startswith("OK") else "rejected"] += 1
         if i is None:
             want = m if efmt is None else ("ERR" if m == "ERR" else "OK " + efmt.replace("@M@", m))
-            if out != want and name == "ws-sweep" and out == "ERR" and "kf-c07-bytes-nongrammar-ws" in known \
-                    and is_extra_ws(ord(d[8])):
-                repaired["kf-c07-bytes-nongrammar-ws"] = repaired.get("kf-c07-bytes-nongrammar-ws", 0) + 1
-                continue
             if out != want:
                 res.violation("`%s` (%s): implementation %s, model %s" % (d, cls, out, want),
                               {"cmd": "P", "doc": d, "impl": out, "model": want})
@@ -629,19 +623,9 @@ def run(tier, seed):
             # inside the class of an open finding the implementation now gives the RFC answer: the defect was repaired
             repaired[finding_for(k, f)] = repaired.get(finding_for(k, f), 0) + 1
             continue
-        if out != want and k == K_FLOAT and out == "ERR" and f["C"] == "1":
-            repaired["kf-c07-float-overflow-inf"] = repaired.get("kf-c07-float-overflow-inf", 0) + 1
-            continue
         if out != want:
             res.violation("%s literal %r in position %s (`%s`): implementation %s, model %s" % (KIND_NAME[k], t, name, d, out, want),
                           {"cmd": "P", "doc": d, "kind": k, "token": t, "position": name, "impl": out, "model": want})
-        elif k == K_FLOAT and i in float_expected and not float_expected[i][1] and out.startswith("OK"):
-            # accepted although the value is not finite: must be the open finding (class = Coq's overflow test)
-            if f["C"] == "1" and "kf-c07-float-overflow-inf" in known:
-                known_hits["kf-c07-float-overflow-inf"] = known_hits.get("kf-c07-float-overflow-inf", 0) + 1
-            else:
-                res.violation("float literal %r stored as a non-finite value %s and no open finding covers it" % (t, out),
-                              {"cmd": "P", "doc": d, "kind": k, "token": t, "impl": out, "model": want})
         if k == K_FLOAT and i in float_expected and name == "type" and (f["M"] == "FIN") != float_expected[i][1]:
             # Coq's class (finite / infinite) against the independent conversion
             res.violation("float literal %r: Coq overflow test says %s, correctly rounded value is %s" % (t, f["M"], float_expected[i][0]),
@@ -652,7 +636,7 @@ def run(tier, seed):
     # ---- open findings: replay each witness; KNOWN-FINDING only while it still fails ----
     for kf, f, out in zip(known.values(), wit_f, wit_impl):
         w = kf["witness"]
-        still = out == w["impl"] and finding_for(w["kind"], f) == kf["id"] and (w["kind"] == K_FLOAT or f["V"] != f["S"])
+        still = out == w["impl"] and finding_for(w["kind"], f) == kf["id"] and f["V"] != f["S"]
         if still:
             res.known(kf)
         else:
